@@ -140,7 +140,7 @@ def jobs(tier, seed, prop):
     R0 = X.Rules()
     enums = tables.cut_enum("TypeOneDRule", R0)[0]
     helpers = _rule_helpers(R0)
-    for fam in (iotape.FAMS if prop != "C14" else []):
+    for fam in (iotape.FAMS if prop not in ("C14", "C01") else []):
         R = X.Rules()
         t, info = iotape.emit(R, fam)
         for mode in ("ascii", "binary"):
@@ -162,7 +162,7 @@ def jobs(tier, seed, prop):
                        assumed=["selectTensors returns a non-empty set (any relation to the current tensors); clearRefinement / makeGrid leave no pending tensors; set difference and union as named",
                                 "setSurplusRefinement (Global with sequence rules) builds its pending set from the loaded points plus children: a superset by construction (not under this contract)"],
                        label="Grid%s::updateGrid leaves updated_tensors empty or a superset of tensors (well_formed clause used by the round trip)" % fam))
-    if prop != "C14":
+    if prop not in ("C14", "C01"):
         Rm = X.Rules()
         mt, minfo = iotape.emit_rulemap(Rm)
         mh = '''
@@ -183,6 +183,8 @@ void h_rulemap(void){
                        functions=["%s:%d %s" % (f["file"], f["line"], f["name"]) for f in minfo["functions"]], info=minfo,
                        assumed=["std::find_if / std::distance over the vector as a linear search (rule R7-find-if-index)", "the string names of the ASCII format (std::map<std::string, ...>) are not under contract"],
                        label="IO::getRuleInt: decode(encode(rule)) == rule for every rule of the binary format"))
+    if prop == "C01":        # C01 uses the update invariant only (a Fourier / Global update keeps the loaded tensors)
+        return out
     # top-level binary framing
     Rt = X.Rules()
     tt, tinfo = iotape.emit_top_binary(Rt)
